@@ -190,6 +190,23 @@ class World:
             text = ''
         if 'text' in m:
             text = m['text']
+        st = m.get('style')
+        if st and text:
+            # legal spellings of the same entries (a hand-edited or foreign-tool Manifest)
+            if st == 'nofinalnl':
+                text = text.rstrip('\n')
+            elif st == 'crlf':
+                text = text.replace('\n', '\r\n')
+            elif st == 'cr':
+                text = text.replace('\n', '\r')
+            elif st == 'tabs':
+                text = '\n'.join(l.replace(' ', '\t', 1) for l in text.split('\n'))
+            elif st == 'blank':
+                text = '\n' + text.replace('\n', '\n\n')
+            elif st == 'trailing-space':
+                text = text.replace('\n', '  \n')
+            elif st == 'double-space':
+                text = '\n'.join(l.replace(' ', '  ') for l in text.split('\n'))
         data = G.compress(text.encode('utf8', 'surrogateescape'), G.comp_of(m['p']))
         p = os.path.join(root, m['p'])
         try:
